@@ -17,6 +17,33 @@ class NT1(typing.NamedTuple):
     n: int
 
 
+class NTSub(NT):
+    """a subclass of a typing.NamedTuple class (tuple is not among its direct bases)"""
+
+
+class NTColl(collections.namedtuple("NTColl", "x y")):
+    """the classic recipe: subclass of a collections.namedtuple"""
+    __slots__ = ()
+
+
+class SlotBase:
+    __slots__ = ("ident",)
+    ident: int
+
+    def __init__(self):
+        self.ident = 1
+
+
+class SlotChild(SlotBase):
+    """a slotted leaf on a slotted, annotated base: the inherited public field is part of the object"""
+    __slots__ = ("name",)
+    name: str
+
+    def __init__(self):
+        super().__init__()
+        self.name = "n"
+
+
 @dataclasses.dataclass
 class DC:
     a: int
@@ -67,6 +94,9 @@ def cases():
         out.append((nm, mk, list(d.items()), list(d.values())))
     out.append(("NamedTuple 2-elem first field", lambda: NT((1, 2), 3), [("a", (1, 2)), ("b", 3)], [(1, 2), 3]))
     out.append(("NamedTuple 2-char first field", lambda: NT1("ab", 3), [("s", "ab"), ("n", 3)], ["ab", 3]))
+    out.append(("subclass of a NamedTuple, 2-elem first field", lambda: NTSub((1, 2), 3), [("a", (1, 2)), ("b", 3)], [(1, 2), 3]))
+    out.append(("subclass of a namedtuple, 2-elem first field", lambda: NTColl((1, 5), "s"), [("x", (1, 5)), ("y", "s")], [(1, 5), "s"]))
+    out.append(("slotted child of a slotted annotated base", lambda: SlotChild(), [("ident", 1), ("name", "n")], [1, "n"]))
     out.append(("dataclass private field", lambda: DC(1), [("a", 1), ("b", "x")], [1, "x"]))
     out.append(("slots-only", lambda: Slots(), [("p", 1)], [1]))
     out.append(("vars-only", lambda: VarsOnly(), [("u", 1), ("w", 3)], [1, 3]))
